@@ -33,6 +33,8 @@ type c13Scenario struct {
 	// ExtraCodecs adds tracks of codecs the client has no type for to the leading init
 	ExtraCodecs []string `json:"extra_codecs,omitempty"`
 	ExtraFirst  bool     `json:"extra_first,omitempty"`
+	// MixedRendition replaces the first rendition of an fMP4 stream by an MPEG-TS one
+	MixedRendition bool `json:"mixed_rendition,omitempty"`
 }
 
 var fmp4Ops = []string{"truncate", "truncate-box", "flip", "garbage", "empty", "zero-dur", "huge-dur", "huge-base", "drop-lead", "unknown-track", "dup-track", "no-samples", "swap-tracks"}
@@ -53,8 +55,11 @@ func drawC13(t *rapid.T) c13Scenario {
 		}
 		sc.ExtraFirst = rapid.Bool().Draw(t, "xfirst")
 	}
+	if sc.Stream.Container == "fmp4" && len(sc.Stream.Renditions) > 0 && rapid.IntRange(0, 3).Draw(t, "mixed") == 0 {
+		sc.MixedRendition = true
+	}
 	nm := rapid.IntRange(0, 3).Draw(t, "nmut")
-	if len(sc.ExtraCodecs) == 0 && nm == 0 {
+	if len(sc.ExtraCodecs) == 0 && !sc.MixedRendition && nm == 0 {
 		nm = 1
 	}
 	for i := 0; i < nm; i++ {
@@ -447,6 +452,29 @@ func execC13(sc c13Scenario) core.Outcome {
 			files[u] = mutateBytes(files[u], m, sc.Stream.Container)
 		}
 	}
+	if sc.MixedRendition && len(b.Renditions) > 0 {
+		// the first rendition becomes an MPEG-TS stream although the leading playlist is fMP4
+		var tsd cli.StreamDef
+		tsd.Container = "mpegts"
+		tsd.VOD = sc.Stream.VOD
+		tpl := cli.PlaylistDef{Tracks: []cli.TrackDef{{Codec: "aac", TimeScale: 90000, SampleDur: 1800}}}
+		for range b.Renditions[0].SegURIs {
+			tpl.Segs = append(tpl.Segs, cli.SegShape{Frags: [][]int{{2}}, Date: true})
+		}
+		tsd.Lead = tpl
+		if tb, err := cli.Build(tsd); err == nil {
+			for p, f := range tb.Files {
+				files["mix_"+p] = f
+			}
+			cp := *tb.Lead
+			cp.SegURIs = nil
+			for _, u := range tb.Lead.SegURIs {
+				cp.SegURIs = append(cp.SegURIs, "mix_"+u)
+			}
+			texts[b.Renditions[0].Path] = cli.MediaPlaylistText(&cp, "mpegts", 0, 0, len(cp.SegURIs), sc.Stream.VOD, true, nil)
+			o.Labels = append(o.Labels, "mixed-containers")
+		}
+	}
 	srv := cli.NewServer()
 	for p, f := range files {
 		srv.AddFile(p, f)
@@ -459,7 +487,7 @@ func execC13(sc c13Scenario) core.Outcome {
 		uri = "http://stream.test/index.m3u8"
 	}
 	cpu0, t0 := cpuTime(), time.Now()
-	r := cli.RunClient(cli.RunOpts{URI: uri, Server: srv, CloseAtRequest: -1, MaxWait: 1500 * time.Millisecond, SkipLeakCheck: false})
+	r := cli.RunClient(cli.RunOpts{URI: uri, Server: srv, CloseAtRequest: -1, MaxWait: 4 * time.Second, SkipLeakCheck: false})
 	cpu, wall := cpuTime()-cpu0, time.Since(t0)
 	if r.StartErr != nil {
 		return o // rejected at Start: clean
@@ -474,7 +502,9 @@ func execC13(sc c13Scenario) core.Outcome {
 		return fail(o, "the client neither ends nor honours Close; requests %v", reqURLs(r.Requests))
 	}
 	if !r.WaitReturned {
-		o.Labels = append(o.Labels, "kept-running-until-closed")
+		// every playlist of the scenario either ends (ENDLIST) or stops evolving, and the media lasts
+		// well under a second: a client that is still silent after 4 s is wedged
+		return fail(o, "the client neither finished nor failed within 4 s (it did end after Close: %v): wedged; requests %v", r.WaitErr, reqURLs(r.Requests))
 	}
 	for _, ti := range r.Tracks {
 		if ti.Codec == "nil" {
@@ -485,7 +515,7 @@ func execC13(sc c13Scenario) core.Outcome {
 	if len(r.Requests) > 400 {
 		return fail(o, "%d requests in %v: the client is spinning; first ones %v", len(r.Requests), wall, reqURLs(r.Requests[:12]))
 	}
-	if wall >= 700*time.Millisecond && float64(cpu) > 0.8*float64(wall) && !r.WaitReturned {
+	if wall >= 700*time.Millisecond && float64(cpu) > 0.8*float64(wall) {
 		return fail(o, "the client used %v of CPU in %v of wall-clock time without ending: busy loop", cpu, wall)
 	}
 	if len(r.Leaked) > 0 {
@@ -504,7 +534,7 @@ var propC13 = core.Prop[c13Scenario]{
 	ID:       "C13",
 	CrashLog: true,
 	Rule: "a C10 stream with 0-3 mutations applied before serving: arbitrary / hostile bytes as primary or media playlist, playlists truncated, flipped, emptied, without segments, with huge numbers, bad URIs or a MAP without URI; init segments truncated at box boundaries, flipped, replaced by garbage, with >10 tracks, duplicate / shifted ids, no tracks, only unsupported codecs, or extra tracks of codecs gohlslib has no type for (AC-3, MJPEG, LPCM); fMP4 segments with zero / huge durations, huge base times, no leading-track data, unknown / duplicate / swapped track ids, empty truns, truncation; MPEG-TS segments truncated at / inside packets, without PAT/PMT, without the leading PID; " +
-		"oracle: the test process survives (a panic in a client goroutine kills it: the scenario is logged before execution), Wait() yields or the client keeps running quietly and ends within 10 s of Close, <= 400 requests and < 80% CPU in 1.5 s, no track without codec exposed, no goroutine left; non-trivial = the client got past its first request",
+		"oracle: the test process survives (a panic in a client goroutine kills it: the scenario is logged before execution), Wait() yields within 4 s (all playlists end or stop evolving and the media lasts well under a second; otherwise the client is wedged and must at least honour Close), <= 400 requests and < 80% CPU, no track without codec exposed, no goroutine left; non-trivial = the client got past its first request",
 	Draw: drawC13,
 	Exec: execC13,
 }
